@@ -223,6 +223,9 @@ def run(ctx):
     from harness.props import ext_config
 
     ext_config.run_ext(ctx)
+    from harness.props import ext_suggest
+
+    ext_suggest.run_ext(ctx)
 
 
 COLL = {"c1": ("a", ["x"]), "c2": ("b", ["x", "y"]), "c3": ("a", ["y"]), "c4": ("c", [])}
